@@ -20,11 +20,11 @@ Definition ann_jitdiff (l : nat) : annot :=
                                   /\ 0 <= getZ st "ct" <= getZ st "i" + getZ st "j")
   | 1%nat => ALoop [("j", KInt)]
                    (fun st0 st => getZ st0 "j" <= getZ st "j" <= getZ st0 "n")
-  | 2%nat => ALoop [("j", KInt); ("ct", KInt);
+  | 7%nat => ALoop [("j", KInt); ("ct", KInt);
                     ("newstart", KArr); ("newend", KArr); ("newmeta", KArr)]
                    (fun st0 st => getZ st0 "j" <= getZ st "j" <= getZ st0 "n"
                                   /\ 0 <= getZ st "ct" <= getZ st "i" + getZ st "j")
-  | 3%nat => ALoop [("i", KInt); ("ct", KInt);
+  | 10%nat => ALoop [("i", KInt); ("ct", KInt);
                     ("newstart", KArr); ("newend", KArr); ("newmeta", KArr)]
                    (fun st0 st => 0 <= getZ st "i"
                                   /\ 0 <= getZ st "ct" <= getZ st "i" + getZ st "j")
